@@ -231,6 +231,43 @@ pub fn main(args: Args) -> i32 {
         let doc = load_replay(p);
         let j = &doc["replay"];
         let envs = envs_variant(j["variant"].as_u64().unwrap_or(0) as usize);
+        if let Some(ts) = j["templates"].as_array() {
+            // a placed matrix site, decided like in the run
+            let mut bad = false;
+            for (i, e) in envs.iter().enumerate() {
+                let mut env = e.clone();
+                env.add_function("rb", |state: &mut minijinja::State, name: String| state.render_block(&name).map(Value::from_safe_string));
+                for t in ts {
+                    let _ = env.add_template_owned(t[0].as_str().unwrap().to_string(), t[1].as_str().unwrap().to_string());
+                }
+                let r = catch(|| env.get_template("main").and_then(|t| t.render(ctxs[1].clone())));
+                let shown = format!("{:?}", r.as_ref().map(|r| r.as_ref().map_err(|e| e.to_string())));
+                let want_ok = j["expect_ok"][i].as_bool().unwrap_or(true);
+                let good = match r {
+                    Ok(Ok(s)) => want_ok && Some(s.as_str()) == j["expect_out"].as_str(),
+                    Ok(Err(e)) => {
+                        let mut k = e.kind();
+                        let mut cur: Option<&(dyn std::error::Error + 'static)> = std::error::Error::source(&e);
+                        while let Some(c) = cur {
+                            if let Some(me) = c.downcast_ref::<minijinja::Error>() {
+                                k = me.kind();
+                            }
+                            cur = c.source();
+                        }
+                        !want_ok && (k == ErrorKind::UndefinedError || j["recursive_site"].as_bool().unwrap_or(false))
+                    }
+                    Err(_) => false,
+                };
+                println!("{:<11} -> {} {}", MODES[i].1, shown, if good { "(as the matrix says)" } else { "(NOT what the matrix says)" });
+                bad |= !good;
+            }
+            if bad {
+                println!("VIOLATION property=C12 replay={}  # placed matrix site", p);
+            } else {
+                println!("replay: as the matrix says");
+            }
+            return if bad { 1 } else { 0 };
+        }
         let mut l = Local::default();
         let ci = j["ctx"].as_u64().unwrap() as usize;
         let outs = check_monotone(&envs, j["source"].as_str().unwrap(), "replay", "replay", &ctxs[ci], ci, &acc, &mut l);
@@ -274,6 +311,94 @@ pub fn main(args: Args) -> i32 {
             acc.count("matrix_sites", 1);
         }
         l.flush(&acc);
+    }
+    // 1b. the matrix at every site *wherever the site is placed*: in macro, call, set and filter bodies,
+    // in included templates, child blocks, the discarded top level of an extending template, the top
+    // level of a module that is imported (captured) or imported from (discarded), and in an imported
+    // macro.  Where the text goes nowhere the expected output is empty; the error table is the same
+    {
+        // (name, templates with SITE, does the site's output reach the result, sees the render context)
+        const PLACEMENTS: &[(&str, &[(&str, &str)], bool, bool)] = &[
+            ("macro_body", &[("main", "{% macro mm() %}SITE{% endmacro %}{{ mm() }}")], true, true),
+            ("call_body", &[("main", "{% macro mm() %}{{ caller() }}{% endmacro %}{% call mm() %}SITE{% endcall %}")], true, true),
+            ("set_block", &[("main", "{% set cap %}SITE{% endset %}{{ cap }}")], true, true),
+            ("filter_block", &[("main", "{% filter string %}SITE{% endfilter %}")], true, true),
+            ("loop_body_in_with", &[("main", "{% with w = 1 %}{% for q in [1] %}SITE{% endfor %}{% endwith %}")], true, true),
+            ("included", &[("main", "{% include 'inc' %}"), ("inc", "SITE")], true, true),
+            ("included_in_set_block", &[("main", "{% set cap %}{% include 'inc' %}{% endset %}{{ cap }}"), ("inc", "SITE")], true, true),
+            ("child_block", &[("main", "{% extends 'base' %}{% block b %}SITE{% endblock %}"), ("base", "{% block b %}{% endblock %}")], true, true),
+            ("parent_block_via_super", &[("main", "{% extends 'base' %}{% block b %}{{ super() }}{% endblock %}"), ("base", "{% block b %}SITE{% endblock %}")], true, true),
+            ("child_top_level_discarded", &[("main", "{% extends 'base' %}SITE{% block b %}{% endblock %}"), ("base", "{% block b %}{% endblock %}")], false, true),
+            ("child_top_level_discarded_in_if", &[("main", "{% extends 'base' %}{% if true %}SITE{% endif %}"), ("base", "{% block b %}{% endblock %}")], false, true),
+            ("from_imported_top_level", &[("main", "{% from 'lib' import x %}"), ("lib", "SITE{% macro x() %}{% endmacro %}")], false, false),
+            ("imported_top_level", &[("main", "{% import 'lib' as lib %}"), ("lib", "SITE{% macro x() %}{% endmacro %}")], false, false),
+            ("imported_macro", &[("main", "{% from 'lib' import x %}{{ x() }}"), ("lib", "{% macro x() %}SITE{% endmacro %}")], true, false),
+            ("imported_macro_via_module", &[("main", "{% import 'lib' as lib %}{{ lib.x() }}"), ("lib", "{% macro x() %}SITE{% endmacro %}")], true, false),
+            ("block_via_state_render_block", &[("main", "{{ rb('b') }}{% if false %}{% block b %}SITE{% endblock %}{% endif %}")], true, true),
+        ];
+        let sites = matrix_sites();
+        par_chunks((sites.len() * PLACEMENTS.len()) as u64, 16, &acc, |r, l| {
+            let all: Vec<Vec<Environment<'static>>> = (0..ENV_VARIANTS.len()).map(envs_variant).collect();
+            for n in r {
+                let site = &sites[n as usize / PLACEMENTS.len()];
+                let (pname, templates, visible, sees_ctx) = PLACEMENTS[n as usize % PLACEMENTS.len()];
+                // operands that need the render context only where the placement sees it
+                if !sees_ctx && (site.src.contains("m.") || site.src.contains("m[") || site.src.contains("xs[") || site.src.contains("(m ")) {
+                    continue;
+                }
+                for (variant, envs) in all.iter().enumerate() {
+                    let outs: Vec<Out> = envs
+                        .iter()
+                        .map(|e| {
+                            let mut env = e.clone();
+                            env.add_function("rb", |state: &mut minijinja::State, name: String| state.render_block(&name).map(Value::from_safe_string));
+                            for (tn, ts) in templates {
+                                if let Err(err) = env.add_template_owned(tn.to_string(), ts.replace("SITE", &site.src)) {
+                                    return Out::Err(err.kind());
+                                }
+                            }
+                            l.evals += 1;
+                            match catch(|| env.get_template("main").and_then(|t| t.render(ctxs[1].clone()))) {
+                                Ok(Ok(s)) => Out::Ok(s),
+                                Ok(Err(e)) => {
+                                    // the located cause counts: a failure inside an include or a block is wrapped
+                                    let mut k = e.kind();
+                                    let mut cur: Option<&(dyn std::error::Error + 'static)> = std::error::Error::source(&e);
+                                    while let Some(c) = cur {
+                                        if let Some(me) = c.downcast_ref::<minijinja::Error>() {
+                                            k = me.kind();
+                                        }
+                                        cur = c.source();
+                                    }
+                                    Out::Err(k)
+                                }
+                                Err(p) => Out::Panic(format!("{} at {}", p, last_panic_loc())),
+                            }
+                        })
+                        .collect();
+                    l.outcome(&format!("placed pattern {}", outs.iter().map(|o| match o { Out::Ok(_) => 'o', Out::Err(_) => 'e', Out::Panic(_) => 'p' }).collect::<String>()));
+                    for i in 0..4 {
+                        let want = if visible { site.out } else { "" };
+                        let good = match (&outs[i], site.ok[i]) {
+                            (Out::Ok(s), true) => s == want,
+                            (Out::Err(k), false) => *k == ErrorKind::UndefinedError || site.class.starts_with("iterate_recursive"),
+                            _ => false,
+                        };
+                        if good {
+                            l.nontrivial.insert(fnv(format!("placed|{}|{}|{}", pname, site.src, i).as_bytes()));
+                        } else {
+                            acc.fail(Failure {
+                                key: format!("undefined matrix site={} mode={} placement={}{}", site.class, MODES[i].1, pname, if variant > 0 { format!(" output={}", ENV_VARIANTS[variant]) } else { String::new() }),
+                                case: format!("{} placed {} under {}", site.src, pname, MODES[i].1),
+                                detail: format!("expected {} but got {:?}", if site.ok[i] { format!("Ok({:?})", want) } else { "Err(UndefinedError)".into() }, outs[i]),
+                                replay: json!({"templates": templates.iter().map(|(a, b)| (a.to_string(), b.replace("SITE", &site.src))).collect::<Vec<_>>(), "ctx": 1, "variant": variant, "expect_ok": site.ok, "expect_out": want, "recursive_site": site.class.starts_with("iterate_recursive")}),
+                            });
+                        }
+                    }
+                }
+            }
+        });
+        acc.count("placed_matrix_sites", (sites.len() * PLACEMENTS.len()) as u64);
     }
     // 2. site table: every built-in with an undefined in each argument position
     let registry = reg::discover();
